@@ -92,6 +92,7 @@ pub fn recycling(cfg: &ParCfg, o: &Obs) -> CheckResult {
     let mut created = Vec::new();
     let mut fills = 0usize;
     let mut received = 0usize;
+    let mut worked = 0usize;
     let mut max_ahead = 0usize;
     for e in &o.events {
         match e {
@@ -99,18 +100,26 @@ pub fn recycling(cfg: &ParCfg, o: &Obs) -> CheckResult {
             Evt::Fill { tag, idx } => {
                 ensure!(created.contains(tag), "mock/unknown-data-set", "fill_data got a data set (tag {}) that dataset_init never created", tag);
                 fills += 1;
+                // The consumer's "received" is logged after next() has returned, i.e. after next() has already recycled
+                // the previous set, so the log may lag by one result - but only a result that a worker has finished
+                // can have been received. Hence: fills <= queue_len + min(received + 1, worked).
+                let lead_allowance = (received + 1).min(worked);
                 ensure!(
-                    fills <= cfg.queue_len + received + 1,
+                    fills <= cfg.queue_len + lead_allowance,
                     "mock/reader-too-far-ahead",
-                    "fill {} (set {}) happened while the consumer had received only {} result(s): more than queue_len = {} ahead",
+                    "fill {} (set {}) happened while the consumer had received {} result(s) and the workers had finished {}: the reader is more than queue_len = {} ahead of the consumer",
                     fills,
                     idx,
                     received,
+                    worked,
                     cfg.queue_len
                 );
                 max_ahead = max_ahead.max(fills - received);
             }
-            Evt::Work { tag, .. } => ensure!(created.contains(tag), "mock/unknown-data-set", "the worker got a data set (tag {}) that dataset_init never created", tag),
+            Evt::Work { tag, .. } => {
+                ensure!(created.contains(tag), "mock/unknown-data-set", "the worker got a data set (tag {}) that dataset_init never created", tag);
+                worked += 1;
+            }
             Evt::Recv { tag, .. } => {
                 ensure!(created.contains(tag), "mock/unknown-data-set", "the consumer got a data set (tag {}) that dataset_init never created", tag);
                 received += 1;
@@ -126,15 +135,8 @@ pub fn recycling(cfg: &ParCfg, o: &Obs) -> CheckResult {
         created.len(),
         cfg.queue_len + 1
     );
-    if faultless(cfg) && o.result == Some(Ok(())) && cfg.n_sets > 0 && !o.events.iter().any(|e| matches!(e, Evt::InitFailed { .. })) {
-        ensure!(
-            created.len() == cfg.queue_len + 1,
-            "mock/data-set-count",
-            "{} data sets were created, expected exactly queue_len + 1 = {}",
-            created.len(),
-            cfg.queue_len + 1
-        );
-    }
+    // (no lower bound: when the reader reaches the end of the input while the main thread is still filling the queue,
+    // the filling loop stops early and fewer than queue_len + 1 data sets are created)
     Ok(())
 }
 
